@@ -8,7 +8,7 @@ CONSTANTS N, SUITE
 
 S(str) == [i \in 1..Len(str) |-> str[i]]
 Pieces == << <<97,47>>, <<47>>, <<46,47>>, <<46,46,47>>, <<37,50,101,47>>, <<37,50,69,47>>, <<46,37,50,101,47>>, <<37,50,70,47>>,
-            <<37,50,102,47>>, <<37,53,67,47>>, <<46,46,46,47>>, <<37,50,101,37,50,69,47>> >>
+            <<37,50,102,47>>, <<37,53,67,47>>, <<46,46,46,47>>, <<37,50,101,37,50,69,47>>, <<47,47>> >>
 Alphabets ==
   [sep  |-> << <<47>>, <<64>>, <<63>>, <<35>>, <<61>>, <<38>>, <<97>> >>,
    \*        /  @  t  T  .  %2e  %2F  %41  %C3%A9  %80  %  1  +
